@@ -40,6 +40,8 @@ def cases(tier, seed):
     for d1 in range(1, 13):
         yield {"kind": "ds2d", "d1": d1, "seed": int(seed)}
     yield {"kind": "detrend", "seed": int(seed)}
+    for i in range(4):
+        yield {"kind": "ds_large", "seed": int(seed), "i": i}
     yield {"kind": "compose", "seed": int(seed)}
     if tier == "thorough":
         rng = np.random.default_rng([seed, 1414])
@@ -233,6 +235,43 @@ def _ds2d(case, ctx, d2s=None):
 
 def _ds2d_big(case, ctx):
     _ds2d(case, ctx, d2s=[case["d2"]])
+
+
+def _ds_large(case, ctx):
+    """Large decimation factors on float32 input: the mean must be accumulated in float64 (property: 'float64 accumulator')."""
+    from sigpyproc.core import kernels, stats
+    from sigpyproc.header import Header
+    from sigpyproc.timeseries import TimeSeries
+
+    rng = np.random.default_rng([case["seed"], case["i"], 6])
+    n = 1 << 18
+    for cls in ("const0.1", "random"):
+        x = np.full(n, 0.1, dtype=np.float32) if cls == "const0.1" else (rng.random(n).astype(np.float32) * 3 + 0.37)
+        x64 = x.astype(np.float64)
+        for f in (4096, 50000, 65536, int(rng.integers(4097, 100000))):
+            m = n // f
+            want = x64[: m * f].reshape(m, f).mean(axis=1)
+            one = dict(case, cls=cls, factor=f)
+            for name, fn in (("downsample_1d", lambda: stats.downsample_1d(x, f)), ("kernel_1d_parallel", lambda: kernels.downsample_1d_mean_parallel(x, f)),
+                             ("TimeSeries.downsample", lambda: TimeSeries(x, Header(filename="x", data_type="time series", nchans=1, foff=-1.0, fch1=1400.0, nbits=32, tsamp=1e-3,
+                                                                                     tstart=58000.0, nsamples=n)).downsample(f).data)):
+                ctx.evaluated(); ctx.count("downsample_1d")
+                got = np.asarray(fn(), dtype=np.float64)
+                if got.shape != want.shape or np.max(np.abs(got - want) / np.abs(want)) > 3e-7:
+                    ctx.violation(f"large-factor-mean:{name}", f"n={n} factor={f} {cls}: relative error {np.max(np.abs(got - want) / np.abs(want)):.2e} (float32 accumulation?)", one)
+                else:
+                    ctx.nontrivial_case(dict(one, fn=name))
+        d1, d2, f1, f2 = 300, 700, 150, int(rng.choice([350, 700, 233]))
+        a = x[: d1 * d2].reshape(d1, d2)
+        m1, m2 = d1 // f1, d2 // f2
+        want2 = a.astype(np.float64)[: m1 * f1, : m2 * f2].reshape(m1, f1, m2, f2).mean(axis=(1, 3)).ravel()
+        for name, fn in (("downsample_2d_flat", lambda: stats.downsample_2d_flat(a.ravel(), f1, f2, d1, d2)), ("kernel_2d_parallel", lambda: kernels.downsample_2d_mean_parallel(a.ravel(), f1, f2, d1, d2)),
+                         ("downsample_2d", lambda: stats.downsample_2d(a, (f1, f2)).ravel())):
+            ctx.evaluated(); ctx.count("downsample_2d_flat")
+            got = np.asarray(fn(), dtype=np.float64)
+            tol = 3e-7 if name != "downsample_2d" else 2e-5  # numpy's float32 pairwise mean is not covered by the float64-accumulator statement
+            if got.shape != want2.shape or np.max(np.abs(got - want2) / np.abs(want2)) > tol:
+                ctx.violation(f"large-factor-mean:{name}", f"({d1},{d2}) factors ({f1},{f2}) {cls}: relative error {np.max(np.abs(got - want2) / np.abs(want2)):.2e}", dict(case, cls=cls))
 
 
 def _detrend(case, ctx):
